@@ -41,7 +41,8 @@ class StoreSQLite(Store):
             return 'INTEGER'
         elif kind in DTYPE_INEXACT_KINDS:
             return 'REAL'
-        return 'NONE'
+        # NOTE: a declared type of "NONE" gives NUMERIC affinity (text that looks like a number is converted); "BLOB" is the affinity that converts nothing
+        return 'BLOB'
 
     @classmethod
     def _frame_to_table(cls,
